@@ -333,7 +333,7 @@ impl Prop for C12 {
     fn plan(tier: Tier) -> Plan {
         Plan {
             shards: tier.pick(4, 16),
-            cases_per_shard: tier.pick(1_500, 10_000),
+            cases_per_shard: tier.pick(1_500, 30_000),
             watchdog: StdDuration::from_secs(tier.pick(300, 3600)),
         }
     }
